@@ -23,7 +23,7 @@ AS_BUILT = ["D08_update_chunked_empty", "D24_pending_ignored", "D24_index_interl
 OWNER = {
     "frame.uri": "C01", "frame.st": "C08", "frame.role": "C01", "frame.parent": "C06", "frame.sup": "C08",
     "frame.supby": "C08", "frame.ts": "C01", "frame.pay": "C07", "frame.blob": "C07", "frame.emb": "C14",
-    "frame.ci": "C06", "frame.cc": "C06", "count": "C01", "nfid": "C06", "file.wal_size": "C01",
+    "frame.ci": "C06", "frame.cc": "C06", "frame.meta": "C08", "count": "C01", "nfid": "C06", "file.wal_size": "C01",
     "file.wal_seq": "C01", "file.chain_seq": "C01", "file.present": "C01", "handle": "C01", "ticket": "C25",
     "capacity": "C25", "stats.count": "C01", "dir": "C19", "result": None, "timeline": "C15", "by_uri": "C08",
     "put.seq": "C01", "put.nfid": "C06", "verify": "C01", "payload_end": "C24",
@@ -38,6 +38,11 @@ def trace_cfg(debug=False, defects=AS_BUILT):
 # ---------------------------------------------------------------------------
 # scenario generators (seeded)
 # ---------------------------------------------------------------------------
+def rand_meta(rng, p):
+    """Abstract descriptive fields (title, track, kind, tags, labels, extra): id > 0 = given, absent = unspecified."""
+    return {k: rng.randint(1, 3) for k in ("title", "track", "kind", "tags", "labels", "extra") if rng.random() < p}
+
+
 def gen_basic(rng, sid, nops=14, big=False):
     ops = [{"op": "create"}]
     pay = 0
@@ -70,6 +75,8 @@ def gen_basic(rng, sid, nops=14, big=False):
                   "words": [rng.randrange(8) for _ in range(rng.randint(0, 3))]}
             if rng.random() < 0.3:
                 op["emb"] = rng.randint(1, 9)
+            if rng.random() < 0.5:
+                op["meta"] = rand_meta(rng, 0.6)
             ops.append(op)
             est += 1 + (size // 1200 if cls == "long" else 0)
         elif c < 0.52:
@@ -80,6 +87,8 @@ def gen_basic(rng, sid, nops=14, big=False):
                 op.update({"pay": pay, "cls": rng.choice(["text", "bin"]), "size": rng.choice([5, 60, 900]), "words": [rng.randrange(8)]})
             if rng.random() < 0.3:
                 op["emb"] = rng.randint(1, 9)
+            if rng.random() < 0.4:
+                op["meta"] = rand_meta(rng, 0.3)
             ops.append(op)
             est += 1
         elif c < 0.62:
@@ -524,7 +533,38 @@ def fam_known(rng, quick):
     return [grow, upd, dbl]
 
 
-EXTRA_FAMILIES += [fam_many_small, fam_tickets, fam_known]
+def fam_maintenance(rng, quick):
+    """C06/C42/C08: ids and the frame table across vacuum: deletes and updates of the newest and of older frames,
+    committed or still pending when vacuum runs, then more puts, reopen."""
+    out = []
+    variants = [([3], True), ([2, 3], True), ([0], True), ([3], False), ([1, 3], False)]
+    if not quick:
+        variants += [([0, 1, 2, 3], True), ([2], False), ([3, 2, 1], True)]
+    for dels, commit_first in variants:
+        ops = [{"op": "create"}]
+        for i in range(4):
+            ops.append({"op": "put", "uri": "mv2://m%d" % i, "pay": i + 1, "cls": rng.choice(["bin", "text"]), "size": rng.choice([40, 900, 2300]),
+                        "ts": i * 3, "words": [i], "meta": {"title": 1, "track": 2, "kind": 1, "tags": 2, "labels": 1, "extra": 2}})
+        ops.append({"op": "commit"})
+        for d in dels:
+            ops.append({"op": "delete", "frame": d})
+        if rng.random() < 0.5:
+            ops.append({"op": "update", "frame": 1, "pay": 9, "cls": "bin", "size": 120})
+        else:
+            ops.append({"op": "update", "frame": 1, "meta": {"title": 3}})
+        if commit_first:
+            ops.append({"op": "commit"})
+        ops += [{"op": "vacuum"}, {"op": "timeline"},
+                {"op": "put", "uri": "mv2://after", "pay": 10, "cls": "text", "size": 60, "ts": 50, "words": [5]},
+                {"op": "by_uri", "uri": "mv2://m3"}, {"op": "commit"}, {"op": "vacuum"}, {"op": "timeline"},
+                {"op": rng.choice(["close", "abandon"])}, {"op": "open", "full": True},
+                {"op": "put", "uri": "mv2://later", "pay": 11, "cls": "bin", "size": 33, "ts": 51}, {"op": "close"},
+                {"op": "open", "full": True}, {"op": "close"}, {"op": "verify"}]
+        out.append(ops)
+    return out
+
+
+EXTRA_FAMILIES += [fam_many_small, fam_tickets, fam_known, fam_maintenance]
 
 DEV_OWNER = {"D01_commit_growth": "C01", "D08_update_chunked_empty": "C08", "D24_pending_ignored": "C24",
              "D24_payload_end_beyond_capacity": "C24"}
